@@ -149,6 +149,9 @@ func execEnum(t *testing.T, p *GPlan) *sim.Outcome {
 		for _, meth := range []string{"Name", "Generate", "CSRs", "AddCertsToAgent"} {
 			places = append(places, Placement{Site: "stub", Fault: meth})
 		}
+		for k := 1; k <= max(1, p.Runs[last].StubKeys); k++ {
+			places = append(places, Placement{Site: "stub", Fault: fmt.Sprintf("addfail:%d", k)})
+		}
 	}
 	if p.Only != nil {
 		places = []Placement{*p.Only}
@@ -225,6 +228,7 @@ func genEnum(r *sim.Rng, tier string) any {
 	}
 	lastRun := mk()
 	lastRun.Handlers = pick(r, [][]string{{"regular"}, {"regular"}, {"stub:fail", "regular"}, {"stub:ok"}, {"regular", "stub:ok"}, {"stub:fail", "stub:ok"}})
+	lastRun.StubKeys = r.Range(1, 3)
 	for i := 0; i < r.Range(0, 2); i++ {
 		lastRun.CA.Comments = append(lastRun.CA.Comments, pick(r, []string{"", "c1"}))
 	}
